@@ -19,6 +19,7 @@ from concurrent.futures import ThreadPoolExecutor
 import vlib
 
 DEVS = {
+    "CloneOrder": "D_C10_CloneWaitsForGuardsUnderBeaconLock",
     "MapEscape": "D_C10_GetAllMapEscape",
     "ColdBuild": "D_C10_ColdIndexBuildMapEscape",
     "SetterNoLock": "D_C10_SetterNoLock",
@@ -123,9 +124,9 @@ def run(ctx):
     # ------------------------------------------------------------------ 1. the discipline model (TLC), in parallel
     two, three = ["p1", "p2"], ["p1", "p2", "p3"]
     jobs = {
-        "strict": (two, [], ALL_PATHS, "RaceFree CommittedRead"),
+        "strict": (two, [], ALL_PATHS, "RaceFree CommittedRead NoDeadlock"),
         "asbuilt": (two, sorted(DEVS), ALL_PATHS, ""),
-        "cr-strict3": (three, [], ["set_upd", "get"], "RaceFree CommittedRead"),
+        "cr-strict3": (three, [], ["set_upd", "get"], "RaceFree CommittedRead NoDeadlock"),
         "cr-asbuilt3": (three, ["Fieldwise"], ["set_upd", "get"], "CommittedRead"),
     }
     for d in DEVS:
@@ -133,7 +134,7 @@ def run(ctx):
         # of races is computed with the Fieldwise deviation on)
         jobs["only-" + d] = (two, sorted(set([d, "Fieldwise"])), ALL_PATHS, "")
     if thorough:
-        jobs["strict3"] = (three, [], ["getall", "set_new", "set_upd", "del", "idx_cold_key"], "RaceFree CommittedRead")
+        jobs["strict3"] = (three, [], ["getall", "set_new", "set_upd", "del", "idx_cold_key", "bucket_cold"], "RaceFree CommittedRead NoDeadlock")
 
     def tl(name):
         procs, devs, paths, inv = jobs[name]
@@ -178,9 +179,16 @@ def run(ctx):
     for d in DEVS:
         pd_, _ = pairs_of(res["only-" + d], "only-" + d)
         by_dev[d] = set(pd_)
-        if d != "Fieldwise" and not pd_:
+        if d not in ("Fieldwise", "CloneOrder") and not pd_:
             raise vlib.Inconclusive("deviation %s alone predicts no race: it is not a deviation" % d)
     protected = conflicting - set(predicted)
+    # predicted deadlocks: sets of (function that is waiting for a lock) of the as-built model; the strict model has none
+    dl = printed(res["asbuilt"], "racing").get("deadlocks", [])
+    pred_dead = set(frozenset(b["fn"] for b in st) for st in dl)
+    dl_clone = printed(res["only-CloneOrder"], "racing").get("deadlocks", [])
+    if not dl_clone or set(frozenset(b["fn"] for b in st) for st in dl_clone) != pred_dead:
+        raise vlib.Inconclusive("the predicted deadlocks are not exactly those of the CloneOrder deviation: %s vs %s" % (sorted(map(sorted, pred_dead)), len(dl_clone)))
+    ctx.extra["predicted_deadlocks"] = sorted(sorted(x) for x in pred_dead)
     ctx.extra["predicted_racing_pairs"] = len(predicted)
     ctx.extra["predicted_pairs"] = [[list(k[0]), list(k[1]), sorted(e["locs"]), [d for d in DEVS if k in by_dev[d]]] for k, e in sorted(predicted.items())]
     ctx.extra["protected_pairs"] = len(protected)
@@ -282,8 +290,29 @@ def run(ctx):
             ctx.deviation(None, "a request panicked (%s) in %s while running %s" % (e.get("msg"), site(e.get("fns", [])), e.get("paths")),
                           dict(kind="panic", mix=mix, raw=e.get("raw", "")[:4000]))
         elif k == "hang":
-            ctx.deviation(None, "requests of mix %s stopped making progress with every request goroutine parked (no completion for 90 s)" % (e.get("paths"),),
-                          dict(kind="hang", mix=mix, raw=e.get("raw", "")[:6000]))
+            # a deadlock: is it one the as-built model predicts?  Every function the model says is waiting must be found in the
+            # stack of a different parked goroutine of the real process
+            gs = [g for g in e.get("goroutines", []) if not g["state"].startswith(("running", "runnable"))]
+            stacks = [set(norm(f[1:]) for f in g["fns"] if f.startswith("@")) for g in gs]
+            match = None
+            for cyc in sorted(pred_dead, key=lambda c: sorted(c)):
+                used, ok = set(), True
+                for fn in sorted(cyc):
+                    j = next((i for i, st in enumerate(stacks) if i not in used and fn in st), None)
+                    if j is None:
+                        ok = False
+                        break
+                    used.add(j)
+                if ok:
+                    match = sorted(cyc)
+                    break
+            fid = DEVS["CloneOrder"] if (match and "CloneOrder" in open_devs) else None
+            ctx.extra["deadlocks_observed"] = ctx.extra.get("deadlocks_observed", 0) + 1
+            ctx.count_case(["deadlock", match], nontrivial=True)
+            ctx.deviation(fid, "requests of mix %s deadlocked (no completion for 90 s, every request goroutine parked)%s" % (
+                e.get("paths"), (": the lock-order cycle the as-built model predicts, waiting in %s" % match) if match else
+                " - not a deadlock the lock-discipline model predicts"),
+                dict(kind="hang", mix=mix, goroutines=gs[:40], raw=e.get("raw", "")[:6000]))
         elif k == "infra":
             infra.append("%s %s" % (e.get("paths"), e.get("msg")))
     done_mixes = [e for e in recs if e["kind"] == "summary"]
